@@ -114,6 +114,15 @@ class ISet:
 NOTIMPL = Sym("NotImplemented")
 
 
+class T(tuple):
+    """internal marker value (class object, builtin, external, bound native / symbolic method ...): a tuple for the
+    interpreter's own dispatch, but never a Python tuple of the interpreted program"""
+    __slots__ = ()
+
+    def __new__(cls, *items):
+        return super().__new__(cls, items)
+
+
 class Closure:
     def __init__(self, node, env, fi):
         self.node, self.env, self.fi = node, env, fi
@@ -431,7 +440,43 @@ class MiniInterp:
         except Exception:
             raise Unknown("truth value")
 
+    def enum_members(self, ci):
+        """members of an Enum class in definition order: ints for IntEnum, symbolic objects (cached) otherwise"""
+        cache = self.__dict__.setdefault("_enum_cache", {})
+        if ci.qual in cache:
+            return cache[ci.qual]
+        bases = {(attr_chain(b) or "").split(".")[-1] for c in ci.mro() for b in c.base_exprs}
+        if not bases & {"Enum", "IntEnum", "StrEnum", "Flag", "IntFlag"}:
+            return None
+        out, nxt = [], 1
+        f0 = next(iter(ci.methods.values()), None)
+        for st in ci.node.body:
+            if isinstance(st, ast.Assign) and len(st.targets) == 1 and isinstance(st.targets[0], ast.Name) and not st.targets[0].id.startswith("_"):
+                v = st.value
+                if isinstance(v, ast.Call) and (attr_chain(v.func) or "").split(".")[-1] == "auto":
+                    val = nxt
+                else:
+                    val = self.ev(v, {}, f0 or self.prj.func(next(iter(self.prj.funcs))))
+                if isinstance(val, int):
+                    nxt = val + 1
+                if bases & {"IntEnum", "IntFlag"} and isinstance(val, int):
+                    out.append((st.targets[0].id, val))
+                elif "StrEnum" in bases and isinstance(val, str):
+                    out.append((st.targets[0].id, val))
+                else:
+                    m = Sym(f"{ci.name}.{st.targets[0].id}", _cls=ci)
+                    m.fields.update(name=st.targets[0].id, value=val)
+                    out.append((st.targets[0].id, m))
+        cache[ci.qual] = out
+        return out
+
     def iterate(self, v):
+        if isinstance(v, T):
+            if v[0] == "class":
+                ms = self.enum_members(v[1])
+                if ms is not None:
+                    return [m for _, m in ms]
+            raise Unknown(f"iteration over {v[0]}")
         if isinstance(v, (list, tuple, str, range, set, frozenset)):
             return list(v)
         if isinstance(v, dict):
@@ -934,7 +979,7 @@ class MiniInterp:
                 ch.parent = (obj, attr)
                 obj.fields[attr] = ch
                 return ch
-            return ("method", obj, attr)
+            return T("method", obj, attr)
         if isinstance(obj, tuple) and obj and obj[0] == "module":
             m = obj[1]
             if attr in m.functions:
@@ -948,6 +993,11 @@ class MiniInterp:
                 r = self.hook(self, "getattr", obj, attr, None, node, fi)
                 if r is not NotImplemented:
                     return r
+            ms = self.enum_members(ci)
+            if ms is not None:
+                for nm, val in ms:
+                    if nm == attr:
+                        return val
             m = ci.find_method(attr)
             if m is not None:
                 return BoundFunc(m, None)
@@ -964,18 +1014,18 @@ class MiniInterp:
                 return "/"
             if obj[1] == "re" and attr in ("IGNORECASE", "I", "MULTILINE", "M", "DOTALL", "S", "VERBOSE", "X", "ASCII", "A"):
                 return int(getattr(_re, attr))
-            return ("external", f"{obj[1]}.{attr}")
+            return T("external", f"{obj[1]}.{attr}")
         if isinstance(obj, tuple) and obj and obj[0] == "super":
             _, me, cls_ = obj
             for b in cls_.bases:
                 m = b.find_method(attr)
                 if m is not None:
                     return BoundFunc(m, me)
-            return ("method", Sym("ext:super", _open=True), attr)
+            return T("method", Sym("ext:super", _open=True), attr)
         if isinstance(obj, ISet):
             if attr in ("add", "update", "discard", "remove", "copy", "union", "intersection", "difference", "issubset", "isdisjoint",
                         "pop", "clear", "issuperset"):
-                return ("iset", obj, attr)
+                return T("iset", obj, attr)
             raise Unknown(f"set method {attr}")
         t = type(obj)
         if self.hook and t not in SAFE_METHODS:
@@ -983,7 +1033,7 @@ class MiniInterp:
             if r is not NotImplemented:
                 return r
         if t in SAFE_METHODS and attr in SAFE_METHODS[t]:
-            return ("native", obj, attr)
+            return T("native", obj, attr)
         raise Unknown(f"attribute {attr} of {t.__name__}")
 
     def global_name(self, name, fi: FuncInfo):
@@ -995,27 +1045,27 @@ class MiniInterp:
         if name in m.functions:
             return BoundFunc(m.functions[name])
         if name in m.classes:
-            return ("class", m.classes[name])
+            return T("class", m.classes[name])
         if name in m.imports:
             tgt = self.prj._resolve_import(m.imports[name])
             from .core import ClassInfo, Module
             if isinstance(tgt, FuncInfo):
                 return BoundFunc(tgt)
             if isinstance(tgt, ClassInfo):
-                return ("class", tgt)
+                return T("class", tgt)
             if isinstance(tgt, Module):
-                return ("module", tgt)
+                return T("module", tgt)
             if isinstance(tgt, tuple) and tgt[0] == "modattr":
                 mm = tgt[1]
                 f0 = next(iter(mm.functions.values()), fi)
                 return self.ev(mm.assigns[tgt[2]], {}, f0)
             if isinstance(tgt, tuple) and tgt[0] == "external":
-                return ("external", tgt[1])
+                return T("external", tgt[1])
         if name in ("True", "False", "None"):
             return {"True": True, "False": False, "None": None}[name]
         if name == "NotImplemented":
             return NOTIMPL
-        return ("builtin", name)
+        return T("builtin", name)
 
     def ev_call(self, n: ast.Call, env, fi):
         f = self.ev(n.func, env, fi)
@@ -1036,7 +1086,7 @@ class MiniInterp:
                 kwargs[k.arg] = self.ev(k.value, env, fi)
         if isinstance(f, Sym) and f.parent is not None:
             f.parent[0].fields.pop(f.parent[1], None)
-            f = ("method", f.parent[0], f.parent[1])
+            f = T("method", f.parent[0], f.parent[1])
         if self.hook:
             r = self.hook(self, "call", f, args, kwargs, n, fi)
             if r is not NotImplemented:
@@ -1072,7 +1122,7 @@ class MiniInterp:
                 raise PyRaise(EXC_OF.get(type(e), "Exception"), n)
         if isinstance(f, tuple) and f and f[0] == "builtin":
             if f[1] == "super" and not args and fi.cls is not None and "self" in env:
-                return ("super", env["self"], fi.cls)
+                return T("super", env["self"], fi.cls)
             return self.builtin(f[1], args, kwargs, n)
         if isinstance(f, tuple) and f and f[0] == "external":
             base = f[1].replace(":", ".").split(".")[-1]
@@ -1245,6 +1295,8 @@ class MiniInterp:
     def builtin(self, name, args, kwargs, node):
         try:
             if name == "len":
+                if isinstance(args[0], T):
+                    return len(self.iterate(args[0]))
                 if isinstance(args[0], ISet):
                     return len(args[0].xs)
                 return len(args[0]) if not isinstance(args[0], _Iter) else len(args[0].rest())
@@ -1306,7 +1358,7 @@ class MiniInterp:
                     return r
                 raise Unknown("next() of a non-iterator")
             if name == "id":
-                return ("id", args[0].uid) if isinstance(args[0], Sym) else ("id", id(args[0]))
+                return T("id", args[0].uid) if isinstance(args[0], Sym) else T("id", id(args[0]))
             if name == "super" and not args:
                 raise Unknown("super() outside a method")
             if name == "getattr" and len(args) >= 2 and isinstance(args[1], str):
